@@ -372,10 +372,11 @@ fn c01_specificity() {
     let mut sel = String::from("p");
     for _ in 0..65536 { sel.push_str(".k"); }
     let css = format!("{}{{color:#ff0000;}}", sel);
-    let r = panic::catch_unwind(move || {
+    // matching a selector recurses once per component: give the thread a deep stack so that only the counters are under test
+    let r = std::thread::Builder::new().stack_size(1 << 30).spawn(move || panic::catch_unwind(move || {
         let c = config::plain().add_css(&css);
         match c { Ok(c) => { let _ = c.string_from_read("<p class=k>x</p>".as_bytes(), 20); }, Err(_) => {} }
-    });
+    })).unwrap().join().unwrap();
     if r.is_err() { found("c01_specificity", "css = p followed by 65536 times .k {color:#ff0000;} ; html=<p class=k>x</p>", "panic"); }
     println!("NONE 1");
 }
@@ -419,6 +420,9 @@ fn main() {
     panic::set_hook(Box::new(|_| {}));
     match mode.as_str() {
         "bnd_tables" => bounded::bnd_tables(),
+        "bnd_c04" => bounded::bnd_c04(),
+        "bnd_c12" => bounded::bnd_c12(),
+        "bnd_c15" => bounded::bnd_c15(),
         "bnd_c07" => bounded::bnd_c07(),
         "bnd_c14" => bounded::bnd_c14(),
         "bnd_c20" => bounded::bnd_c20(),
